@@ -1415,7 +1415,17 @@ fn replay_room_node_merge(sc: &Value) -> Value {
         let rid = cand.node.id;
         let gid = cand.auth_nodes[0].node.id;
         // the extra row: fresh, or an existing row of another list replayed unchanged
-        let (unode, rnode) = if source == "fresh" {
+        let dup_id: Option<Uid> = if source == "duplicate_id" {
+            Some(match place {
+                "admin" => old.admin_nodes[0].node.id,
+                "user" => old.auth_nodes[0].user_nodes[0].node.id,
+                "user_admin" => old.auth_nodes[0].user_admin_nodes[0].node.id,
+                _ => old.auth_nodes[0].right_nodes[0].node.id,
+            })
+        } else {
+            None
+        };
+        let (mut unode, mut rnode) = if source == "fresh" || source == "duplicate_id" {
             if place == "right" {
                 (None, Some(c07_right_node(&mut keys, "xrow", ex["entity"].as_str().unwrap(), b(&ex["mutate_self"]), b(&ex["mutate_all"]), i(&ex["date"]), ex["author"].as_str().unwrap())))
             } else {
@@ -1429,12 +1439,23 @@ fn replay_room_node_merge(sc: &Value) -> Value {
             };
             (Some(n), None)
         };
+        if let Some(d) = dup_id {
+            if let Some(n) = unode.as_mut() { n.node.id = d; }
+            if let Some(n) = rnode.as_mut() { n.node.id = d; }
+        }
         let row_id = unode.as_ref().map(|n| n.node.id).or(rnode.as_ref().map(|n| n.node.id)).unwrap();
         let esrc = if ex["edge_src"].as_str().unwrap().starts_with("R1") { rid } else { gid };
         // ids are written by the checks as the row name padded with dots
         let edest = uid(ex["edge_dest"].as_str().unwrap_or("elsewhere").trim_end_matches('.'));
         let _ = row_id;
         let edge = c07_edge(&mut keys, esrc, "x", ex["edge_label"].as_str().unwrap(), edest, i(&ex["edge_date"]), ex["edge_author"].as_str().unwrap());
+        if let Some(lg) = ex.get("legit").filter(|l| !l.is_null()) {
+            let a2 = lg["author"].as_str().unwrap();
+            let d2 = i(&lg["date"]);
+            let n2 = c07_user_node(&mut keys, "x2row", "K2kkkkkkkkkkkkkkkkkkkkkkkkkkkkkkk", true, d2, a2);
+            cand.auth_nodes[0].user_edges.push(c07_edge(&mut keys, gid, "0.1", "34", n2.node.id, d2, a2));
+            cand.auth_nodes[0].user_nodes.push(n2);
+        }
         match place {
             "admin" => { cand.admin_edges.push(edge); cand.admin_nodes.push(unode.unwrap()); }
             "user" => { cand.auth_nodes[0].user_edges.push(edge); cand.auth_nodes[0].user_nodes.push(unode.unwrap()); }
